@@ -68,6 +68,11 @@ func (m *Round2Broadcast[G, S]) Validate(p *Participant[G, S], senderID sharing.
 	if m == nil || m.Message == nil || m.Message.X == nil || m.Message.Rho == nil || m.Message.A == nil {
 		return ErrValidationFailed.WithMessage("nil argument")
 	}
+	// The batch Schnorr commitment is a plain struct on the wire: a CBOR map without its "a" entry
+	// decodes into a nil group element, which Bytes() and the proof verification would dereference.
+	if utils.IsNil(m.Message.A.A) {
+		return ErrValidationFailed.WithMessage("missing batch schnorr commitment")
+	}
 	if m.U == ([hashcom.DigestSize]byte{}) {
 		return ErrValidationFailed.WithMessage("empty witness")
 	}
@@ -126,6 +131,14 @@ type Round3Broadcast[G algebra.PrimeGroupElement[G, S], S algebra.PrimeFieldElem
 func (m *Round3Broadcast[G, S]) Validate(*Participant[G, S], sharing.ID) error {
 	if m == nil || m.Psi == nil {
 		return ErrValidationFailed.WithMessage("nil argument")
+	}
+	// Commitment and response are plain structs on the wire: a CBOR map without its "a" / "z" entry
+	// decodes into a nil component, which the verification in round 4 would dereference.
+	if a := m.Psi.Commitment(); a == nil || utils.IsNil(a.A) {
+		return ErrValidationFailed.WithMessage("missing batch schnorr commitment")
+	}
+	if z := m.Psi.Response(); z == nil || utils.IsNil(z.Z) {
+		return ErrValidationFailed.WithMessage("missing batch schnorr response")
 	}
 
 	return nil
